@@ -40,7 +40,9 @@ package filter
 //@   ensures [extends] result == nil && old(f.tubes[tubeIndex % len(f.tubes)].Count) > 0 && q - old(f.tubes[tubeIndex % len(f.tubes)].QHi) <= f.maxKmerDist ==> f.tubes[tubeIndex % len(f.tubes)].Count == old(f.tubes[tubeIndex % len(f.tubes)].Count) + 1 && f.tubes[tubeIndex % len(f.tubes)].QLo == old(f.tubes[tubeIndex % len(f.tubes)].QLo) && f.tubes[tubeIndex % len(f.tubes)].QHi == q
 //@   ensures [restarts] result == nil && (old(f.tubes[tubeIndex % len(f.tubes)].Count) == 0 || q - old(f.tubes[tubeIndex % len(f.tubes)].QHi) > f.maxKmerDist) ==> f.tubes[tubeIndex % len(f.tubes)].Count == 1 && f.tubes[tubeIndex % len(f.tubes)].QLo == q && f.tubes[tubeIndex % len(f.tubes)].QHi == q
 //@   ensures [reports]  result == nil && old(f.tubes[tubeIndex % len(f.tubes)].Count) > 0 && q - old(f.tubes[tubeIndex % len(f.tubes)].QHi) > f.maxKmerDist && old(f.tubes[tubeIndex % len(f.tubes)].Count) >= f.minKmersPerHit ==> emittedHits(f) == old(emittedHits(f)) + 1
-//@   ensures [silent]   result == nil && !(old(f.tubes[tubeIndex % len(f.tubes)].Count) > 0 && q - old(f.tubes[tubeIndex % len(f.tubes)].QHi) > f.maxKmerDist && old(f.tubes[tubeIndex % len(f.tubes)].Count) >= f.minKmersPerHit) ==> emittedHits(f) == old(emittedHits(f))
+//@   ensures [silent-empty] result == nil && old(f.tubes[tubeIndex % len(f.tubes)].Count) == 0 ==> emittedHits(f) == old(emittedHits(f))
+//@   ensures [silent-near]  result == nil && q - old(f.tubes[tubeIndex % len(f.tubes)].QHi) <= f.maxKmerDist ==> emittedHits(f) == old(emittedHits(f))
+//@   ensures [silent-few]   result == nil && old(f.tubes[tubeIndex % len(f.tubes)].Count) < f.minKmersPerHit ==> emittedHits(f) == old(emittedHits(f))
 //@   assigns f.tubes[*], emittedHits(f), fresh
 
 // tubeEnd / tubeFlush report the run counted in a slot exactly when it reached the threshold.
